@@ -30,6 +30,7 @@ func runC08(r *Run) {
 	c08PausedPromotion(r)
 	c08Readers(r)
 	c08StateTables(r)
+	c08Imports(r)
 }
 
 // c08FlagOfFact classifies a must-fact of the rolling-update strategy as the paused or frozen atom:
@@ -365,22 +366,25 @@ func c08StateTables(r *Run) {
 	for _, fn := range sortedFuncs(reach) {
 		for _, st := range storesToFieldOf(fn, pkgAPI, "ExtendedDaemonSetStatus", "State") {
 			pos := r.Prog.Pos(instrPos(st))
-			if _, isC := constString(st.Val); isC {
-				switchFns[fn] = true
-				continue
+			// the stored state may be chosen through a local variable: classify every alternative of the phi
+			for _, alt := range c08PhiLeaves(st.Val) {
+				if _, isC := constString(alt); isC {
+					switchFns[fn] = true
+					continue
+				}
+				call, isCall := stripConv(alt).(*ssa.Call)
+				g := (*ssa.Function)(nil)
+				if isCall {
+					g = staticCallee(&call.Call)
+				}
+				if g == nil || !r.Prog.IsRuleSite(g) || len(call.Call.Args) != 1 {
+					r.Undecided("C08.R4", "store Status.State", pos, shortFunc(fn), "the state is neither a constant nor the result of a repository state function of the annotations")
+					continue
+				}
+				okArg := annotationsOf(isEDSVal)(stripConv(call.Call.Args[0]))
+				r.Check("C08.R4", "store Status.State="+shortFunc(g)+"(annotations)", pos, shortFunc(fn), "the non-canary state is computed from the reconciled object's annotations", okArg, "argument "+describeVal(call.Call.Args[0]))
+				nonCanaryFns[g] = true
 			}
-			call, isCall := stripConv(st.Val).(*ssa.Call)
-			g := (*ssa.Function)(nil)
-			if isCall {
-				g = staticCallee(&call.Call)
-			}
-			if g == nil || !r.Prog.IsRuleSite(g) || len(call.Call.Args) != 1 {
-				r.Undecided("C08.R4", "store Status.State", pos, shortFunc(fn), "the state is neither a constant nor the result of a repository state function of the annotations")
-				continue
-			}
-			okArg := annotationsOf(isEDSVal)(stripConv(call.Call.Args[0]))
-			r.Check("C08.R4", "store Status.State="+shortFunc(g)+"(annotations)", pos, shortFunc(fn), "the non-canary state is computed from the reconciled object's annotations", okArg, "argument "+describeVal(call.Call.Args[0]))
-			nonCanaryFns[g] = true
 		}
 	}
 	// non-canary table
@@ -557,18 +561,21 @@ func c08CanarySwitch(r *Run, fn *ssa.Function, reach map[*ssa.Function]bool, non
 		var construct, need string
 		okp := false
 		got := "no state stored"
+		var lastVal ssa.Value
 		if last != nil {
-			if s, isC := constString(last.Val); isC {
+			// a state chosen through a local variable is a phi: take the alternative of this path
+			lastVal = stripConv(p.Resolve(stripConv(last.Val)))
+			if s, isC := constString(lastVal); isC {
 				got = "\"" + s + "\""
 			} else {
-				got = describeVal(last.Val)
+				got = describeVal(lastVal)
 			}
 		}
 		isConst := func(want string) bool {
 			if last == nil {
 				return false
 			}
-			s, isC := constString(last.Val)
+			s, isC := constString(lastVal)
 			return isC && s == want
 		}
 		switch {
@@ -584,7 +591,7 @@ func c08CanarySwitch(r *Run, fn *ssa.Function, reach map[*ssa.Function]bool, non
 		case fa == triFalse && ac == triFalse:
 			construct, need = "state on paths [¬failed ¬active]", "the non-canary state of the reconciled object's annotations"
 			if last != nil {
-				if call, isC := stripConv(last.Val).(*ssa.Call); isC && nonCanaryFns[staticCallee(&call.Call)] {
+				if call, isC := lastVal.(*ssa.Call); isC && nonCanaryFns[staticCallee(&call.Call)] {
 					okp = true
 				}
 			}
@@ -617,4 +624,28 @@ func c08CanarySwitch(r *Run, fn *ssa.Function, reach map[*ssa.Function]bool, non
 			r.Check("C08.R4", want, pos, shortFunc(fn), "the case exists in the state switch", false, "no path with these flags")
 		}
 	}
+}
+
+// c08PhiLeaves flattens a value chosen through phis (a local variable assigned on several
+// branches) into its alternatives.
+func c08PhiLeaves(v ssa.Value) []ssa.Value {
+	var out []ssa.Value
+	seen := map[ssa.Value]bool{}
+	var rec func(v ssa.Value)
+	rec = func(v ssa.Value) {
+		v = stripConv(v)
+		if seen[v] {
+			return
+		}
+		seen[v] = true
+		if ph, ok := v.(*ssa.Phi); ok {
+			for _, e := range ph.Edges {
+				rec(e)
+			}
+			return
+		}
+		out = append(out, v)
+	}
+	rec(v)
+	return out
 }
